@@ -19,6 +19,7 @@ LEVEL = "model_checking"
 NEGS = ["MoveTooFar", "BoundaryMidWord", "IsLigNotPropagated", "DropOriginal", "ClassOfOp7"]
 NEGS_COMPILE = ["IgnoreBlocked", "ForgetParents"]
 FINDING_PHANTOM = "redirect-phantom-ligature"
+FINDING_STALE = "pack-entrypoints-stale-left-boundary"
 
 _SKIP_RE = re.compile(r'^<<"SKIP", (\d+), (\d+)>>', re.M)
 
@@ -131,8 +132,20 @@ def describe(e, v):
             f"got {json.dumps(got)}, TeX's main loop gives {json.dumps(v.get('want'))}")
 
 
+def deviation_applies(finding, e):
+    """A recorded deviation can explain an event only if the event contains what the deviation is about."""
+    p = e["p"]
+    if finding["deviation"] == "PhantomLigature":
+        return any(ins[2] == 255 for ins in p["ins"])
+    if finding["deviation"] == "StaleLeftBoundaryEntry":
+        return "lbf" in p and p["lbf"] != p["lbe"]
+    return False
+
+
 def judge_batches(ctx, batches):
-    """Strictly rejected events are decided a second time with the recorded deviations enabled."""
+    """Strictly rejected events are decided again, once per recorded deviation, with exactly that named
+    deviation of the specification enabled (Trace_LigKern_dev_<Deviation>.cfg).  An event the deviation
+    fully explains is a KNOWN-FINDING; everything else stays a VIOLATION."""
     rejected = []  # (batch, line index, [verdicts])
     for b in batches:
         per = {}
@@ -142,30 +155,39 @@ def judge_batches(ctx, batches):
             rejected.append((b, i, per[i]))
     if not rejected:
         return
-    explained = set()
-    if any(f.get("deviation") for f in ctx.findings if f.get("status", "open") == "open"):
-        dev = ctx.work / "rejected.ndjson"
+    explained = {}  # index into rejected -> finding key
+    for fnd in ctx.findings:
+        if fnd.get("status", "open") != "open" or not fnd.get("deviation"):
+            continue
+        cand = [k for k, (b, i, _) in enumerate(rejected) if k not in explained and deviation_applies(fnd, b.event(i))]
+        if not cand:
+            continue
+        dev = ctx.work / f"rejected-{fnd['deviation']}.ndjson"
         with open(dev, "wb") as f:
-            for b, i, _ in rejected:
+            for k in cand:
+                b, i, _ = rejected[k]
                 f.write(b.lines[i])
-        db = Batch("dev", dev, cfg="Trace_LigKern_dev.cfg")
-        run_jobs(ctx, validation_jobs(ctx, db, min(8, len(rejected) // 200 + 1)), 8)
+        db = Batch(f"dev-{fnd['deviation']}", dev, cfg=f"Trace_LigKern_dev_{fnd['deviation']}.cfg")
+        run_jobs(ctx, validation_jobs(ctx, db, min(8, len(cand) // 200 + 1)), 8)
         still = {i for i, _ in db.verdicts}
-        explained = set(range(len(rejected))) - still
+        for n, k in enumerate(cand):
+            if n not in still:
+                explained[k] = fnd["key"]
     shown = 0
     for k, (b, i, vs) in enumerate(rejected):
         e = b.event(i)
-        if k in explained and any(ins[2] == 255 for ins in e["p"]["ins"]):
-            ctx.judge(FINDING_PHANTOM, describe(e, vs[0]), {"part": b.name, "event": e, "verdict": vs[0]})
+        if k in explained:
+            ctx.judge(explained[k], describe(e, vs[0]), {"part": b.name, "event": e, "verdict": vs[0]})
             continue
         shown += 1
         if shown <= 12:
-            for v in vs[:1]:
-                key = None
-                if v["key"] == "panic":
-                    pan = e.get("panic") or e["runs"][v["r"] - 1].get("panic")
-                    key = f"panic:{pan[0]}:{pan[1]}"
-                ctx.judge(key, describe(e, v), {"part": b.name, "event": e, "verdict": v})
+            v = vs[0]
+            key = None
+            if v["key"] == "panic":
+                pan = e.get("panic") or e["runs"][v["r"] - 1].get("panic")
+                key = f"panic:{pan[0]}:{pan[1]}"
+            ev = e if len(b.lines[i]) < 200000 else {"tag": e.get("tag"), "errs": e["errs"], "runs": e["runs"]}
+            ctx.judge(key, describe(e, v), {"part": b.name, "event": ev, "verdict": v})
         else:
             ctx.violations.append((describe(e, vs[0]), "(not stored)"))
 
@@ -192,6 +214,7 @@ def run(ctx):
             ("random", ["c05-random", f"seed={seed}", "n=1500", "words=10"]),
             ("corpus", ["c05-corpus", f"dir={corpus_dir()}", f"seed={seed}", "pairs=30", "walks=30", "batch=60"]),
             ("redirect", ["c05-redirect", f"seed={seed}", "n=120"]),
+            ("convert", ["c05-convert", f"dir={corpus_dir()}", f"seed={seed}", "pairs=20", "walks=25", "batch=60"]),
         ]
     else:
         plan = [
@@ -201,6 +224,7 @@ def run(ctx):
             ("random", ["c05-random", f"seed={seed}", "n=12000", "words=12"]),
             ("corpus", ["c05-corpus", f"dir={corpus_dir()}", f"seed={seed}", "pairs=500", "walks=500", "batch=100"]),
             ("redirect", ["c05-redirect", f"seed={seed}", "n=1500"]),
+            ("convert", ["c05-convert", f"dir={corpus_dir()}", f"seed={seed}", "pairs=300", "walks=300", "batch=100"]),
         ]
     for name, cmd in plan:
         files[name] = w / f"{name}.ndjson"
@@ -232,8 +256,8 @@ def run(ctx):
         jobs.append((f"neg:{b}", neg("MC_LigKern", f"NEG_LigKern_{b}.cfg", b)))
     for b in NEGS_COMPILE:
         jobs.append((f"neg:{b}", neg("LigKernCompile", f"NEG_LigKernCompile_{b}.cfg", b)))
-    per_chunk = ({"small": 1300, "random": 260, "corpus": 13, "redirect": 200} if q else
-                 {"small": 2500, "random": 1500, "corpus": 40, "redirect": 800})
+    per_chunk = ({"small": 1300, "random": 260, "corpus": 13, "redirect": 200, "convert": 8} if q else
+                 {"small": 2500, "random": 1500, "corpus": 40, "redirect": 800, "convert": 30})
     for b in batches:
         size = per_chunk[re.sub(r"\d+$", "", b.name)]
         jobs += validation_jobs(ctx, b, len(b.lines) // size + 1)
@@ -271,7 +295,10 @@ def run(ctx):
         "warnings, i.e. the fonts TeX itself would load (TeX does not look for loops); the other files are "
         "deliberately broken inputs and belong to C10",
         "instructions with skip_byte > 128 reachable through a chain are exercised only by the separate `redirect` "
-        "driver (known finding " + FINDING_PHANTOM + ")",
+        "driver and one corpus font (known finding " + FINDING_PHANTOM + ")",
+        "driver `convert`: property-list fonts converted in memory (pl::File -> tfm::File, i.e. through "
+        "Program::pack_entrypoints / unpack_kerns) and compiled with compile_from_tfm_file; the reference interprets "
+        "the font file that conversion serialises to (known finding " + FINDING_STALE + ")",
         "the identity of the reported starting pair among several looping pairs (Knuth's traversal order) is not "
         "checked, only that every reported pair does loop",
     ]
